@@ -419,9 +419,15 @@ def c16_case(args):
             ForkingRange.work = None
         finish_engine(res, eng)
 
+    # thorough tier: the instances of one schema (growing length patterns) share a wall budget; what is cut off is counted
+    budget = None if tier == "quick" else float(os.environ.get("VERIF_C16_SCHEMA_BUDGET_S", "90"))
+    skipped = 0
     for ii, inst in enumerate(instances(schema, tier)):
         if _red(res) or res["violations"]:
             break
+        if budget is not None and ii > 0 and time.time() - t_case > budget:
+            skipped += 1
+            continue
         canon = refspec.canon_bytes(schema, T, inst.value)
         data = _as_symbytes(canon)
         # history: the complete message is decoded before its prefixes (a receiver sees good frames first)
@@ -433,6 +439,9 @@ def c16_case(args):
         # (a) every strict prefix of a valid encoding must be rejected
         for k in range(len(data)):
             if _red(res) or res["violations"]:
+                break
+            if budget is not None and ii > 0 and time.time() - t_case > 2 * budget:
+                skipped += 1        # a single long instance: its remaining prefixes
                 break
             def mk(m, wb, k=k):
                 cb = [m.eval(b, model_completion=True).as_long() for b in canon][:k]
@@ -525,6 +534,8 @@ def c16_case(args):
             ForkingRange.work = None
         finish_engine(res, eng)
     res["functions"] = sorted(cov.seen)
+    if skipped:
+        res["vacuity"]["C16 instances cut off by the per-schema wall budget (thorough)"] = skipped
     res["sample"] = {"schema": feats["desc"], "obligation_groups": nobl, "paths": res["paths"], "wall_s": round(time.time() - t_case, 2),
                      "queries": res["queries"],
                      "verdicts": {"discharged": res["discharged"], "violations": len(res["violations"])}}
@@ -556,6 +567,9 @@ def run_c16(tier: str) -> int:
         "truncation": "every byte boundary k < len(encoding) of every instance (values symbolic)",
         "length_prefix": "every str / dynamic array of fixed-size elements: announced count symbolic in (L, 2^32) "
                          "subject to 'announced value needs more bytes than the buffer has'",
+        "thorough_wall_budget": "thorough tier only: the instances of one schema share a wall budget (90 s; further instances are "
+                                "skipped, a single instance stops taking prefixes at twice that); the number cut off is reported "
+                                "under vacuity_guards - the first instance of every schema is always complete",
         "arbitrary_buffers": "n symbolic bytes, n in {0,1,2,3,5,6} (quick) / {0..9} (thorough); "
                              "work budget 64*(n+8) loop iterations",
     })
